@@ -26,13 +26,28 @@ structure Render where
   within : Option Nat          -- for <option>: index of the render that is its <select>
   shown : List Char            -- display text (`Sequence.u`) when the bind is a whole Array
   how : How                    -- through which Tag method (a held Tag object renders like a fresh one)
+  norm : Option (List Char)    -- typed member schema (Integer / Float): the literal as the member schema keeps it
 
 def parseRender (j : Json) : Except String Render := do
   let sel ← optOf (listOf nat) (← fld j "sel")
   let tag0 ← cfld j "tag"
   let within ← optOf nat (fldD j "within" Json.null)
   let shown ← chars (fldD j "arr_shown" (Json.str ""))
-  return ⟨sel, tag0, ← parsePairs parseVal (← fld j "kwargs"), within, shown, ← parseHow j⟩
+  let norm ← optOf chars (fldD j "norm" Json.null)
+  return ⟨sel, tag0, ← parsePairs parseVal (← fld j "kwargs"), within, shown, ← parseHow j, norm⟩
+
+/-- An Array whose member schema is TYPED (Integer, Float): `literal in bind` wraps the literal in a member element
+    (`int()` / `float()`, `'%i'` / `'%f'`; an unreadable literal keeps its text, value None) and compares value AND text
+    with every member, i.e. asks whether the literal AS THE MEMBER SCHEMA KEEPS IT (`norm`) is the text of a member.
+    That reading is NOT modelled here: the case supplies `norm` (harness reference `typed_norm`, Python's int/float, not
+    the library).  The transform model (`Bind.matches`, read-only) asks `members.contains literal`; for the one
+    rendering at hand the runner presents a member list that answers it the way the code does. -/
+def typedBind (b : Option Bind) (lit : Option (List Char)) (norm : Option (List Char)) : Option Bind :=
+  match b, lit, norm with
+  | some ⟨n, u, .array strip ms⟩, some l, some nm =>
+    if nm = l then b
+    else some ⟨n, u, .array strip (if ms.contains (some nm) then some l :: ms else ms.filter (· != some l))⟩
+  | _, _, _ => b
 
 /-- one call of the pre-history (made, and caught, on the same generator before the first rendering) -/
 inductive PreOp
@@ -146,6 +161,7 @@ def run (j : Json) : Except String Json := do
       let bind := match r.sel with
         | none => none
         | some s => select r.shown tree [] s
+      let bind := typedBind bind ((Dict.get? r.kwargs "value".toList).bind Val.str?) r.norm
       let bindJson := match r.sel, bind with
         | some _, some b => obj [("name", ofStr b.flatName), ("u", ofStr b.u)]
         | _, _ => Json.null
